@@ -29,7 +29,10 @@ MANIFEST = {
             'specs and conversions, interleaved with device commands, run with '
             'the production StdOutOutput binding; captured stdout is compared '
             'byte for byte (modulo the two stated tolerances) and segment by '
-            'segment between device requests. Sampled.',
+            'segment between device requests. Sampled.'
+            ' One format string is executed twice around the appearance o'
+            'r disappearance of a variable named like its field; formats '
+            'consisting of doubled braces only are included.',
     'note': 'Trusted: reference formatter; Python str()/format() as the '
             'meaning of "the text of its value". Values are chosen so that the '
             'format spec fits the value type (a ValueError from str.format is '
